@@ -1,7 +1,13 @@
 package chain
 
 import (
+	"bytes"
+	"errors"
+
+	"github.com/aergoio/aergo/v2/consensus"
+	"github.com/aergoio/aergo/v2/state"
 	"github.com/aergoio/aergo/v2/types"
+	"github.com/aergoio/aergo/v2/types/message"
 	vf "github.com/aergoio/aergo/v2/zzvf"
 )
 
@@ -17,4 +23,196 @@ func VF_C07_a() {
 	vf.Reach("C07.a")
 	vf.Assert(need == (no > best), "C07.a")
 	vf.Observe("need", need)
+}
+
+// vfRoot: the state root of the i-th block of the universe: concrete, pairwise distinct (state roots are opaque
+// identifiers for the index code; block execution is not part of these obligations).
+func vfRoot(i int) []byte {
+	r := make([]byte, 32)
+	r[0] = 0xA0
+	r[31] = byte(i + 1)
+	return r
+}
+
+func vfRootSeq() func(branch string, i int) []byte {
+	n := 0
+	return func(string, int) []byte { n++; return vfRoot(n) }
+}
+
+var vfErrExec = errors.New("vf: block execution failed")
+
+// C07.b (chain side) and C07.d at position 0, through the real ChainService.reorg with nothing replaced:
+// - vetoed by consensus (fork point below the LIB): reorg returns consensus.ErrorConsensus before rollback: no SetRoot,
+//   no consensus Update, no block execution, not a single KV write, best block unchanged;
+// - not vetoed: rollback + rollforward run; the real executeBlock rejects the first new block (the consensus stub's
+//   IsBlockValid fails), reorg returns that error before swapChain: not a single KV write, indexes and best unchanged.
+func VF_C07_b() {
+	a, f, b := vfShape(vf.Param("maxA", 2), vf.Param("maxExtra", 1))
+	u := vfBuild(a, b, f, vfTxRange(vf.Param("minTx", 0), vf.Param("maxTx", 0)), vfRootSeq())
+	u.populate()
+	bestRoot := u.mainAt(a).Header.BlocksRootHash
+	u.cs.sdb.SetRoot(bestRoot)
+	lib := vf.U64("lib")
+	u.cc.lib = lib
+	u.cc.failAt = 0
+	units := u.kv.Units
+	top := u.side[b-1]
+	vf.Assert(u.cs.needReorg(top), "C07.b")
+	err := u.cs.reorg(top, nil)
+	vetoed := uint64(f) < lib
+	vf.Assert(err != nil, "C07.b")
+	_, isCons := err.(consensus.ErrorConsensus)
+	vf.Assert(u.cc.needCalls == 1, "C07.b")
+	if isCons {
+		vf.Reach("C07.b")
+		vf.Assert(vetoed, "C07.b")
+		vf.Assert(len(u.cc.updates) == 0, "C07.b")
+		vf.Assert(len(u.cc.validCalls) == 0, "C07.b")
+		vf.Assert(bytes.Equal(u.cs.sdb.GetRoot(), bestRoot), "C07.b")
+		vf.Assert(u.kv.Units == units, "C07.b")
+		vf.Assert(len(u.log.Msgs) == 0, "C07.b")
+		vfCheckChain("C07.b", u.cs, u.kv, u.oldPath())
+	} else {
+		vf.Reach("C07.d.first")
+		vf.Assert(!vetoed, "C07.b")
+		vf.Assert(err == vfErrInvalidBlock, "C07.d")
+		// rollback went to the fork point, exactly one execution was attempted: the first new block
+		vf.Assert(len(u.cc.updates) == 1 && bytes.Equal(u.cc.updates[0].GetHash(), u.mainAt(f).Hash), "C07.d")
+		vf.Assert(len(u.cc.validCalls) == 1 && bytes.Equal(u.cc.validCalls[0].GetHash(), u.side[0].Hash), "C07.d")
+		vf.Assert(u.kv.Units == units, "C07.d")
+		vf.Assert(len(u.log.Msgs) == 0, "C07.d")
+		vfCheckChain("C07.d", u.cs, u.kv, u.oldPath())
+	}
+	vf.Observe("consErr", isCons)
+	vf.Observe("units", u.kv.Units)
+	if !isCons {
+		vf.AssertKnown(bytes.Equal(u.cs.sdb.GetRoot(), bestRoot), "C07.d.root", "F13-failed-reorg-state-root",
+			!bytes.Equal(u.mainAt(f).Header.BlocksRootHash, bestRoot))
+	}
+}
+
+// vfReorgWith runs the body of ChainService.reorg on a reorganizer made by the real newReorganizer whose
+// executeBlockFn is replaced by exec (block execution itself is outside these obligations).
+func vfReorgWith(cs *ChainService, top *types.Block, exec func(*state.BlockState, *types.Block) error) (*reorganizer, error) {
+	reorg, err := newReorganizer(cs, top, nil)
+	if err != nil {
+		return nil, err
+	}
+	reorg.executeBlockFn = exec
+	if err = reorg.gatherFn(); err != nil {
+		return reorg, err
+	}
+	if reorg.gatherPostFn != nil {
+		reorg.gatherPostFn()
+	}
+	if !cs.NeedReorganization(reorg.brStartBlock.BlockNo()) {
+		return reorg, consensus.ErrorConsensus{Msg: "reorganization rejected by consensus"}
+	}
+	if err = reorg.rollback(); err != nil {
+		return reorg, err
+	}
+	if err = reorg.rollforward(); err != nil {
+		return reorg, err
+	}
+	return reorg, reorg.swapChain()
+}
+
+// C07.c / C07.d: rollback, rollforward and swapChain of the real reorganizer with a recording executor.
+// success: the executed sequence is exactly the new branch from fork+1 to the tip in ascending order, the first execution
+// starts from the fork block's state root, the best block is the side tip, the indexes satisfy the C05 invariant for the new
+// branch and the MemPoolPut messages are exactly the txs of abandoned blocks that are in no new block;
+// failure at position i: error returned before swapChain, no KV write, indexes and best unchanged.
+func VF_C07_c() {
+	a, f, b := vfShape(vf.Param("maxA", 2), vf.Param("maxExtra", 1))
+	u := vfBuild(a, b, f, vfTxRange(vf.Param("minTx", 1), vf.Param("maxTx", 1)), vfRootSeq())
+	u.populate()
+	bestRoot := u.mainAt(a).Header.BlocksRootHash
+	u.cs.sdb.SetRoot(bestRoot)
+	failAt := vf.Choice("failAt", b+1) - 1
+	var executed []*types.Block
+	var rootAt [][]byte
+	exec := func(_ *state.BlockState, blk *types.Block) error {
+		n := len(executed)
+		executed = append(executed, blk)
+		rootAt = append(rootAt, u.cs.sdb.GetRoot())
+		if n == failAt {
+			return vfErrExec
+		}
+		// what a successful executeBlock leaves behind for the index code: state root and consensus status at blk
+		u.cs.sdb.SetRoot(blk.GetHeader().GetBlocksRootHash())
+		u.cs.Update(blk)
+		return nil
+	}
+	units := u.kv.Units
+	top := u.side[b-1]
+	_, err := vfReorgWith(u.cs, top, exec)
+	if failAt < 0 {
+		vf.Reach("C07.c")
+		vf.Assert(err == nil, "C07.c")
+		vf.Assert(vfSameBlocks(executed, u.side), "C07.c")
+		vf.Assert(len(rootAt) > 0 && bytes.Equal(rootAt[0], u.mainAt(f).Header.BlocksRootHash), "C07.c")
+		for i := 1; i < len(rootAt); i++ {
+			vf.Assert(bytes.Equal(rootAt[i], u.side[i-1].Header.BlocksRootHash), "C07.c")
+		}
+		vf.Assert(len(u.cc.updates) == b+1 && bytes.Equal(u.cc.updates[0].GetHash(), u.mainAt(f).Hash), "C07.c")
+		vf.Assert(bytes.Equal(u.cs.sdb.GetRoot(), top.Header.BlocksRootHash), "C07.c")
+		vfCheckChain("C07.c", u.cs, u.kv, u.newPath())
+		vfCheckMemPoolPut("C07.c", u)
+	} else {
+		vf.Reach("C07.d")
+		vf.Assert(err == vfErrExec, "C07.d")
+		vf.Assert(vfSameBlocks(executed, u.side[:failAt+1]), "C07.d")
+		vf.Assert(u.kv.Units == units, "C07.d")
+		vf.Assert(len(u.log.Msgs) == 0, "C07.d")
+		vfCheckChain("C07.d", u.cs, u.kv, u.oldPath())
+	}
+	vf.Observe("err", err != nil)
+	vf.Observe("executed", len(executed))
+	vf.Observe("units", u.kv.Units)
+	vf.Observe("best", u.cs.cdb.getBestBlockNo())
+	if failAt >= 0 {
+		// C05 wants "state root == best block's root" after every history: a failed rollforward leaves it behind
+		vf.AssertKnown(bytes.Equal(u.cs.sdb.GetRoot(), bestRoot), "C07.d.root", "F13-failed-reorg-state-root",
+			!bytes.Equal(u.mainAt(f).Header.BlocksRootHash, bestRoot))
+	}
+}
+
+// vfCheckMemPoolPut: the MemPoolPut requests are exactly the old-only txs (one message each), nothing else is sent.
+func vfCheckMemPoolPut(ob string, u *vfUniverse) {
+	var put [][]byte
+	for _, m := range u.log.Msgs {
+		vf.Assert(m.To == message.MemPoolSvc && m.Kind == "request", ob)
+		p, ok := m.Msg.(*message.MemPoolPut)
+		vf.Assert(ok, ob)
+		if ok {
+			put = append(put, p.Tx.GetHash())
+		}
+	}
+	expected := 0
+	for i, tx := range u.txs {
+		p := u.txAt[i]
+		if p.side || p.no <= u.f {
+			continue
+		}
+		shared := false
+		for j, o := range u.txs {
+			if u.txAt[j].side {
+				shared = vf.Or(shared, bytes.Equal(tx.Hash, o.Hash))
+			}
+		}
+		cnt := 0
+		for _, h := range put {
+			if bytes.Equal(h, tx.Hash) {
+				cnt++
+			}
+		}
+		if cnt == 0 {
+			vf.Assert(shared, ob)
+		} else {
+			vf.Assert(!shared, ob)
+			vf.Assert(cnt == 1, ob)
+			expected++
+		}
+	}
+	vf.Assert(len(put) == expected, ob)
 }
